@@ -40,6 +40,10 @@ type Plan struct {
 	// same instant (bytes of the opposite direction not yet read are lost, as on a dropped link).
 	CutDir int   `json:"cut_dir"` // -1 = no cut
 	CutAt  int64 `json:"cut_at"`
+	// CutSilent models a buffered link (TCP send buffer, modem transmit queue): the writer does not
+	// notice the failure - the crossing write and all later writes of either end report success but
+	// go nowhere - and both ends learn about it only from their next Read (EOF).
+	CutSilent bool `json:"cut_silent,omitempty"`
 	// Edits per direction (sorted by Off).
 	Edits [2][]Edit `json:"edits"`
 	// WriteDelay per Write call per direction (pacing).
@@ -79,6 +83,7 @@ type Link struct {
 	closed     [2]bool // end i (0=A,1=B) closed locally
 	closeCnt   [2]int
 	cut        bool
+	killed     bool
 	blocked    [2]bool // end i blocked in Read
 	deadlock   bool
 	wrCalls    [2]int
@@ -102,6 +107,8 @@ type ModemEnd struct {
 	mu         sync.Mutex
 	RobustLog  []bool
 	FlushCalls int
+	// TxQueryDelay makes TxBufferLen slow, like a modem that has to be asked over a serial line.
+	TxQueryDelay time.Duration
 }
 
 // New creates a link. Record enables transcript recording.
@@ -134,6 +141,9 @@ func (e *End) Write(p []byte) (int, error) {
 	if l.closed[e.idx] {
 		return 0, net.ErrClosed
 	}
+	if l.cut && l.plan.CutSilent && !l.killed {
+		return len(p), nil // swallowed by the dead link's buffer
+	}
 	if l.cut || l.closed[1-e.idx] {
 		return 0, ErrPeerClosed
 	}
@@ -159,6 +169,9 @@ func (e *End) Write(p []byte) (int, error) {
 	}
 	l.written[d] += int64(n)
 	l.cond.Broadcast()
+	if failed && l.plan.CutSilent {
+		return len(p), nil
+	}
 	if failed {
 		return n, ErrPeerClosed
 	}
@@ -289,6 +302,9 @@ func (e *End) SetWriteDeadline(t time.Time) error { return nil }
 
 // TxBufferLen reports the bytes written by this end that the peer has not read yet.
 func (m *ModemEnd) TxBufferLen() int {
+	if m.TxQueryDelay > 0 {
+		time.Sleep(m.TxQueryDelay)
+	}
 	l := m.l
 	l.mu.Lock()
 	defer l.mu.Unlock()
@@ -360,6 +376,7 @@ func (l *Link) Kill() {
 	l.mu.Lock()
 	defer l.mu.Unlock()
 	l.cut = true
+	l.killed = true
 	l.q[0], l.q[1] = nil, nil
 	l.cond.Broadcast()
 }
